@@ -5,7 +5,7 @@ cd /verif || exit 1
 export GOFLAGS=-mod=mod GOPROXY=off
 mkdir -p .cache/bin .cache/overlay .cache/keys evidence
 cat /repo/go.sum /repo/sqlite/go.sum 2>/dev/null | sort -u > go.sum
-printf '{"Replace":{"/repo/zz_verif_export.go":"/verif/overlay/fdo_export.go"}}\n' > .cache/overlay/setup.json
+printf '{"Replace":{"/repo/zz_verif_export.go":"/verif/overlay/fdo_export.go","/repo/kex/zz_verif_export.go":"/verif/overlay/kex_export.go"}}\n' > .cache/overlay/setup.json
 rc=0
 go build -tags verif -overlay .cache/overlay/setup.json -o .cache/bin/keygen ./cmd/keygen && .cache/bin/keygen || rc=1
 for d in checks/*/; do
